@@ -60,9 +60,17 @@ package performance
 // --last n the partition shows only the last n periods of the window) are ignored; inside, the running product is
 // multiplied by the day's factor; on a period end day the percentage 100*(product-1) is printed and the
 // product restarts at 1 - so a period's return is the chained product of its days.
+// Perf (constructor): adds the period end days to the builder and captures the period start dates - the
+// captured-state precondition @starts of the day-end callback is an obligation here.
+//@ func Perf
+//@   requires wfBuilder(j)
+//@   modifies j.days[*]
+//@   ensures [C20] result != nil && wfBuilder(j)
+//
 //@ def inShown(part date.Partition, t time.Time) bool := part.span.Start <= t && t <= part.span.End && (len(part.periods) == 0 || part.periods[0].Start <= t)
 //@ func Perf$1
 //@   requires d != nil && d.Performance != nil && ds != nil
+//@   requires @starts: len(starts) == len(part.periods) && (len(starts) > 0 ==> starts[0] == part.periods[0].Start)
 //@   modifies running
 //@   callback Performance=0
 //@   callback Printf=1
